@@ -14,6 +14,25 @@ theorem complete_of_loadable {d : Disk} {f : SnapFile} (h : d.loadable f = true)
 theorem segs_of_loadable {d : Disk} {f : SnapFile} (h : d.loadable f = true) : ∀ x ∈ f.segs, d.segOK x = true := by
   simp only [Disk.loadable, Bool.and_eq_true, List.all_eq_true] at h; exact h.2
 
+theorem le_foldl_max (l : List (Nat × Bool)) (m : Nat) : m ≤ l.foldl (fun m g => max m g.1) m := by
+  induction l generalizing m with
+  | nil => exact Nat.le_refl _
+  | cons g r ih => exact Nat.le_trans (Nat.le_max_left m g.1) (ih _)
+
+theorem mem_le_foldl_max (l : List (Nat × Bool)) (m : Nat) {g : Nat × Bool} (h : g ∈ l) :
+    g.1 ≤ l.foldl (fun m g => max m g.1) m := by
+  induction l generalizing m with
+  | nil => cases h
+  | cons a r ih =>
+    rcases List.mem_cons.mp h with h1 | h1
+    · subst h1; exact Nat.le_trans (Nat.le_max_right m g.1) (le_foldl_max r _)
+    · exact ih _ h1
+
+theorem segOK_lt_floor {d : Disk} {x : Nat} (h : d.segOK x = true) : x < d.maxSeg + 2 := by
+  have := mem_le_foldl_max d.segs 0 (Disk.segOK_iff.mp h)
+  simp only [Disk.maxSeg]
+  omega
+
 theorem inv_reopen {s s' : State} (hI : Inv s) (h : reopen s = some s') : Inv s' := by
   unfold reopen at h
   simp only [] at h
@@ -63,12 +82,13 @@ theorem inv_reopen {s s' : State} (hI : Inv s) (h : reopen s = some s') : Inv s'
     refine ⟨?_, ?_, ?_, ?_⟩
     · constructor
       case n_pos => rw [hn]; exact hI.n_pos
-      case used_root => exact hI.used_snaps f hf.1
+      case used_root => intro x hx; exact Or.inl (segOK_lt_floor (segs_of_loadable hf.2 x hx))
       case used_known =>
         intro z hz
         rcases commitFrom_known hz with h1 | ⟨x, hx, hzx⟩
         · cases h1
-        · exact hI.used_snaps x (mem_loadOrder.mp hx).1 z hzx
+        · exact Or.inl (segOK_lt_floor (segs_of_loadable (mem_loadOrder.mp hx).2 z hzx))
+      case used_snaps => intro g hg hgc x hx; exact Or.inl (segOK_lt_floor (hI.sc g hg hgc x hx))
       case e0 => intro _; exact ⟨Nat.lt_succ_self _, Nat.le_refl _⟩
       case e2 => intro _ g hg hgc; exact Or.inl (hmax g (hmem g hg hgc))
       case pe =>
